@@ -1382,3 +1382,12 @@ Definition example_sched : list label :=
    LTimeoutCleanup 2; LFinish; LStart; LRegister 0; LSendOk 2 0;
    LDeliver 1 12 104;                      (* late reply to the answered command: dropped *)
    LDeliver 2 10 105; LRecv 0; LFinish].
+
+(* C12: fifo_accounting at any moment of any schedule - the commands answered so far are a prefix of
+   the commands enqueued so far, in their order: no answer for a command nobody asked, none twice,
+   none overtaking an earlier command *)
+Lemma answered_is_prefix sched :
+  exists rest, enq_cmds sched = map fst (s_out (run sched)) ++ rest.
+Proof.
+  exists (cur_cmds (run sched) ++ s_queue (run sched)). symmetry. exact (fifo_accounting sched).
+Qed.
